@@ -290,7 +290,24 @@ def r7_reads_in_one_expression_arrive_in_source_order(ctx):
     r4_order_shortcircuit_zero(ctx)
 
 
-RULES = [("C17-R1", r1_no_discarded_overread), ("C17-R2", r2_terminator_and_eof), ("C17-R3", r3_each_byte_once_and_unchanged), ("C17-R4", r4_reads_are_never_pruned), ("C17-R5", r5_no_stdin_lock_while_the_program_runs), ("C17-R6", r6_lossy_decoding_drops_nothing), ("C17-R7", r7_reads_in_one_expression_arrive_in_source_order)]
+def r8_children_take_input_only_when_told(ctx):
+    """Standard input is shared with every child process that inherits it: a child started after `stdin_null()` /
+    `stdin_text(..)` must not get the interpreter's fd 0, or it consumes lines the program's next read_line was to return.
+    Shared with C15-R9 (method name -> policy, policy copied as itself by clone_into, policy -> Stdio unconditionally)."""
+    from .c15 import r9_names_reach_their_policy
+    r9_names_reach_their_policy(ctx)
+
+
+def r9_a_line_that_was_read_stays_intact(ctx):
+    """A line returned by read_line lives on the frame arena until it is stored; what the program later sees is that line only
+    if every store promotes it and no frame reset comes before the copy (a `return read_line("")` from inside a loop, a line
+    pushed into an array by a function).  Shared with C02-R4 (resets) and C02-R5 (promotion is complete)."""
+    from .c02 import r4_resets, r5_promotion_complete
+    r4_resets(ctx)
+    r5_promotion_complete(ctx)
+
+
+RULES = [("C17-R1", r1_no_discarded_overread), ("C17-R2", r2_terminator_and_eof), ("C17-R3", r3_each_byte_once_and_unchanged), ("C17-R4", r4_reads_are_never_pruned), ("C17-R5", r5_no_stdin_lock_while_the_program_runs), ("C17-R6", r6_lossy_decoding_drops_nothing), ("C17-R7", r7_reads_in_one_expression_arrive_in_source_order), ("C17-R8", r8_children_take_input_only_when_told), ("C17-R9", r9_a_line_that_was_read_stays_intact)]
 
 EXPLANATION = (
     "R1: in the host implementation of Stdin::read_line (resolved through the sys::stdin alias from GlobalBuiltin::read_line) "
@@ -309,3 +326,6 @@ EXPLANATION += (
 ASSUMPTIONS = ["unix back end only (windows/wasm implementations are not compiled on this host)", "std's Stdin buffer is process-wide and keeps unread bytes between calls"]
 TRUSTED = ["rustc nightly MIR/trait resolution", "nsx exporter"]
 NONTRIVIAL = "one obligation per input source call site and per line-handling clause"
+EXPLANATION += (
+    " R8 shares C15-R9 (a child gets the interpreter's stdin only when the script says so). R9 shares C02-R4/R5 (a line that was read stays intact until stored)."
+)
